@@ -47,11 +47,11 @@ theorem canonical {s1 s2 : State} {R1 R2 : List Row} {g1 g2 : SG}
 /-- **insertion-order independence**: two histories after which the specification holds the same
 abstract graph leave the *same* `Csr` value (same vectors, bit for bit). -/
 theorem order_independent {s : State} {R : List Row} {g : SG} (good : Good s R) (abs : Abs s R g)
-    (ops1 ops2 : List Op) (h1 : Fits s.modulus R.length ops1) (h2 : Fits s.modulus R.length ops2)
-    (heq : SGEquiv (specRun g ops1).1 (specRun g ops2).1) :
+    (ops1 ops2 : List Op)
+    (heq : SGEquiv (specRun s.modulus g ops1).1 (specRun s.modulus g ops2).1) :
     (run s ops1).1 = (run s ops2).1 := by
-  obtain ⟨R1, good1, abs1, _, sp1⟩ := run_refines good abs ops1 h1
-  obtain ⟨R2, good2, abs2, _, sp2⟩ := run_refines good abs ops2 h2
+  obtain ⟨R1, good1, abs1, _, sp1⟩ := run_refines good abs ops1
+  obtain ⟨R2, good2, abs2, _, sp2⟩ := run_refines good abs ops2
   exact canonical good1 good2 abs1 abs2
     ⟨sp1.1.trans sp2.1.symm, sp1.2.1.trans sp2.2.1.symm, sp1.2.2.1.trans sp2.2.2.1.symm,
       sp1.2.2.2.trans sp2.2.2.2.symm⟩ heq
